@@ -258,6 +258,16 @@ def r072_impl(eng, rep, cbs, g) -> None:
             return None  # conditional binding is the latest: not decided here
         return v
 
+    # a named tuple class the extension-field action returns counts as the tuple kind
+    tuple_alias = set()
+    cef = cbs.get("extension_field")
+    rt_ef = eng.T.return_type(cef.f) if cef else None
+    if rt_ef is not None and rt_ef[0] == "inst" and rt_ef[1] in eng.prog.classes and any(str(b).split(".")[-1] == "NamedTuple" for b in eng.prog.classes[rt_ef[1]].bases):
+        tuple_alias.add(eng.prog.classes[rt_ef[1]].name)
+
+    def canon_kind(k):
+        return "tuple" if k in tuple_alias else k
+
     def kinds_of(test, var):
         """kinds selected by a predicate expression over `var` -> (positive?, kind) or None"""
         neg = False
@@ -267,9 +277,9 @@ def r072_impl(eng, rep, cbs, g) -> None:
         if isinstance(test, ast.Call):
             d = dotted(test.func) or ""
             if d == "isinstance" and len(test.args) == 2 and norm(test.args[0]) == var:
-                return (not neg, norm(test.args[1]).split(".")[-1])
+                return (not neg, canon_kind(norm(test.args[1]).split(".")[-1]))
             if d in preds and len(test.args) == 1 and norm(test.args[0]) == var:
-                return (not neg, preds[d])
+                return (not neg, canon_kind(preds[d]))
         return None
 
     def classify(e, want_kind, depth=0):
@@ -294,7 +304,7 @@ def r072_impl(eng, rep, cbs, g) -> None:
             d = (dotted(e.func) or "").split(".")[-1]
             if d == "filter" and len(e.args) == 2:
                 if isinstance(e.args[0], ast.Name) and e.args[0].id in preds:
-                    sel = (True, preds[e.args[0].id])
+                    sel = (True, canon_kind(preds[e.args[0].id]))
                 else:
                     return "undecided", "filter predicate not resolved"
             elif d in ("takewhile", "dropwhile", "islice"):
@@ -320,13 +330,13 @@ def r072_impl(eng, rep, cbs, g) -> None:
     # R07.6 discriminators
     import re as _re
     txt = norm(f.node, 6000)
-    tested = {m_.group(1).split(".")[-1] for m_ in _re.finditer(r"isinstance\([^,()]+(?:\[[^\]]*\])?, ([\w\.]+)\)", txt)}
+    tested = {canon_kind(m_.group(1).split(".")[-1]) for m_ in _re.finditer(r"isinstance\([^,()]+(?:\[[^\]]*\])?, ([\w\.]+)\)", txt)}
     # the callbacks' result types: identifier -> str, extension_field -> tuple, signal_block -> SignalBlock
     rt = {}
     for r_ in ("identifier", "extension_field", "signal_block"):
         c = cbs.get(r_)
         rt[r_] = eng.T.return_type(c.f) if c else None
-    okp = rt.get("identifier") == ("prim", "str") and rt.get("extension_field") is not None and rt["extension_field"][0] == "tuple" and rt.get("signal_block") == ("inst", S + "signal_block.SignalBlock")
+    okp = rt.get("identifier") == ("prim", "str") and rt.get("extension_field") is not None and (rt["extension_field"][0] == "tuple" or bool(tuple_alias)) and rt.get("signal_block") == ("inst", S + "signal_block.SignalBlock")
     site = "discriminators %s" % sorted(tested)
     if not okp:
         rep.violation("R07.6", f.file, f.qual, site, "the tests used to tell the optional name, extension fields and signal blocks apart do not match the result types of their actions")
